@@ -482,6 +482,47 @@ class StmtMixin:
             cur = nxt
         return cur
 
+    def invoke_callable(self, call_node, args, kw, st, exc):
+        """Call the callable expression `call_node` (as registered with ExitStack.callback) with already evaluated arguments."""
+        text = ast.unparse(call_node)
+        if text == "setattr" and len(args) == 3 and isinstance(args[1].t if hasattr(args[1], "t") else None, object):
+            name = self._const_str(args[1])
+            if name is not None and isinstance(args[0].s, Obj):
+                self.write_field(st, args[0], name, self._coerce_or(args[2], self.declared_field_sort(args[0], name)))
+                st.touch()
+                return [(st, S.NONEV())]
+        c = self.find_contract_text(text)
+        fake = ast.Call(func=call_node, args=[], keywords=[])
+        ast.copy_location(fake, call_node)
+        if c is not None:
+            return self.apply_contract(c, fake, st, exc, None, list(args), dict(kw))
+        # no contract: an opaque call (may raise, havocs self when it is a method of self)
+        self.opaque_calls.setdefault(text, []).append(getattr(call_node, "lineno", 0))
+        s_exc = st.copy()
+        self.opaque_effects(s_exc, fake, text, list(args))
+        s_exc.trace = s_exc.trace + (("?" + text + "!raise", getattr(call_node, "lineno", 0)),)
+        exc.append((s_exc, exc_value(self.target.faults + "*", getattr(call_node, "lineno", 0), text)))
+        self.opaque_effects(st, fake, text, list(args))
+        st.trace = st.trace + (("?" + text, getattr(call_node, "lineno", 0)),)
+        return [(st, ANY.fresh("cb"))]
+
+    def _coerce_or(self, v, sort):
+        c = self.coerce(v, sort)
+        return v if c is None else c
+
+    @staticmethod
+    def _const_str(v):
+        try:
+            if z3.is_string_value(v.t):
+                return v.t.as_string()
+        except Exception:  # noqa
+            pass
+        return None
+
+    def declared_field_sort(self, ref, name):
+        decl = self.class_decl(ref.s.cls)
+        return decl.fields.get(name, ANY) if decl else ANY
+
     def bi_ExitStack(self, e, st, exc, expect):
         return [(st, V(PySide("exitstack"), S.fresh_name("exitstack")))]
 
@@ -672,8 +713,9 @@ class StmtMixin:
         return outs
 
     def st_For(self, s, st, exc):
-        if isinstance(s.iter, (ast.Tuple, ast.List)) and s.iter.elts and all(isinstance(x, ast.Constant) for x in s.iter.elts) \
+        if isinstance(s.iter, (ast.Tuple, ast.List)) and s.iter.elts and not any(isinstance(x, ast.Starred) for x in s.iter.elts) \
                 and self.target.loops.get(self.loop_ordinals[id(s)]) is None:
+            # a literal tuple/list of expressions: exact unrolling, element by element
             return self.unroll_literal_for(s, st, exc)
         ordn, ls = self.loop_spec(s)
         tag = "loop%d" % ordn
